@@ -28,6 +28,11 @@ EXPLANATION = (
 EXPLANATION += " Also decided: every entry point exits clean on the connection all apps share; namespaces are constructed only by the registry's get-or-create (factory call sites included)."
 
 
+def _visible_results(model):
+    from ..e5 import result_sites_visible
+    return result_sites_visible(model)
+
+
 def run(ctx):
     model = ctx.model
     shared.r_wire(ctx, "R06.wire")
@@ -107,6 +112,15 @@ def run(ctx):
                 elif e["db"] == "usage" and st.table == "current":
                     ok = True
                     why = "global status row"
+                elif e["db"] == "usage" and usage.tables.get(st.table) is not None and \
+                        "app_id" not in usage.tables[st.table].colnames():
+                    ok = True
+                    why = "usage table without an app column (server-wide status)"
+                elif e["db"] == "chan" and st.kind == "select" and not st.mutating and \
+                        e["site"][:2] not in _visible_results(model):
+                    ok = True
+                    why = ("server-wide read whose result reaches no frame, no channel "
+                           "statement and no decision before one (operator statistics)")
                 else:
                     why = "Server-level statement reads or writes per-app rows without a namespace"
                 ctx.ob("R06.server", construct_of(e), ok, e, why)
